@@ -25,6 +25,7 @@ CHAIN4_POWERS = (2, -1, 0)
 BIGPOW_EXPONENTS = {"quick": range(4, 10), "thorough": range(4, 14)}
 BIGPOW_NC_MAX = 9          # distribute(commutative=False) keeps all 2**n terms: only up to here
 HISTORY_POOL = {"quick": 6, "thorough": 12}
+POWPOW_EXPONENTS = {"quick": (-1, 2, 3), "thorough": (-2, -1, 0, 2, 3)}
 POLY_MAX_EXP = 3                                            # exponents 0..3 in the poly4 family
 SHORT_MANTISSA_BITS = 32
 FLOAT_SETS = {                                              # boundary magnitudes of float constants
@@ -545,6 +546,37 @@ def param_inputs(tier):
         yield ("Power", t1, C(2))
         yield ("Product", T(("Sum", T(t1, C(1))), ("Sum", T(x, C(-1)))))
         yield ("Sum", T(t1, ("Product", T(y, x)), ("Product", T(C(3), x))))
+
+
+def powpow(tier):
+    """Powers of powers as terms and as factors: (v**a)**b, (v**a * w)**b and (w * v**a)**b (the
+    form the distributor turns into a product of nested powers itself), thorough also
+    ((v**2)**a)**b -- alone, as a summand next to / as a factor of a term next to each of a few
+    plain terms (either order), times a binomial (either order), and summed pairwise."""
+    x, y = V("x"), V("y")
+    ex = POWPOW_EXPONENTS[tier]
+    nested, prodpow = [], []
+    for v, w in ((x, y), (y, x)):
+        for a, b in itertools.product(ex, repeat=2):
+            nested.append(("Power", ("Power", v, C(a)), C(b)))
+            prodpow.append(("Power", ("Product", T(("Power", v, C(a)), w)), C(b)))
+            prodpow.append(("Power", ("Product", T(w, ("Power", v, C(a)))), C(b)))
+            if tier != "quick":
+                nested.append(("Power", ("Power", ("Power", v, C(2)), C(a)), C(b)))
+    plain = [C(1), x, ("Power", x, C(3)), ("Product", T(C(2), ("Power", x, C(2))))]
+    binom = ("Sum", T(x, C(1)))
+    partners = [("Power", ("Power", v, C(a)), C(b)) for v in (x, y)
+                for a, b in itertools.product(POWPOW_EXPONENTS["quick"], repeat=2)]
+    for p_ in nested + prodpow:
+        yield p_
+        for t in plain:
+            yield ("Sum", T(p_, t))
+            yield ("Sum", T(t, p_))
+            yield ("Sum", T(("Product", T(C(2), p_, y)), t))
+        yield ("Product", T(p_, binom))
+        yield ("Product", T(binom, p_))
+        for q in partners:
+            yield ("Sum", T(p_, q))
 
 
 def poly4(tier):
